@@ -25,6 +25,8 @@ fn entry<T: Serialize + DeserializeOwned + 'static>(name: &str, v: &T) -> Result
         trace: t,
         decode: Box::new(|b: &[u8]| dec::<T>(b).map(|v| enc(&v))),
         group: "scalar-shaped",
+        json: serde_json::to_vec(v).map_err(|e| e.to_string())?,
+        decode_json: Box::new(|b: &[u8]| serde_json::from_slice::<T>(b).map(|_| ()).map_err(|e| e.to_string())),
     })
 }
 
